@@ -22,9 +22,10 @@ SPEC = {
     "level_text": "Proved in Lean for any number and mix of connections, every trigger instant and both trigger sources, every lifespan "
                   "script and time-out, for both worker classes as the code is now (Current) and in general over the runtime flags "
                   "(_of_flags): worker_serve has returned by trigger + graceful_timeout + shutdown_timeout and the clock cannot pass "
-                  "that instant while it has not (bounded); at either deadline it has an action to take on runtimes where a cancelled "
-                  "handler always finishes (deadline_forces_progress: trio; asyncio with an HTTP/2 stream in progress is the known "
-                  "finding F32, witness h2_cancel_deadlock); once terminated is set the listeners are closed, no connection with an "
+                  "that instant while it has not (bounded); at either deadline it has an action to take, whatever is still open, HTTP/2 "
+                  "streams in progress on asyncio included (deadline_forces_progress for both current runtimes, _of_flags wherever a "
+                  "cancelled handler always finishes; F32 is fixed by 1b98b61: history witnesses h2_cancel_deadlock_before_fix, "
+                  "deadline_forces_progress_failed_before_fix about Runtime.asyncioBeforeF32); once terminated is set the listeners are closed, no connection with an "
                   "armed idle timer is left, nothing was accepted and no application instance was started afterwards (orderly); "
                   "connection attempts and request heads are not enabled, a new HTTP/2 stream is refused without an application "
                   "instance, the end of the last stream sends GOAWAY and closes (after_trigger_refusals); every idle connection, "
@@ -42,7 +43,9 @@ SPEC = {
                   "(a mismatch is reported as a disagreement); two pieces of the exit path are read off the source by tools/extract.py "
                   "(Guards.lean): what asyncio's worker_serve awaits between terminated.set() and the bounded wait for the handlers "
                   "(Runtime.asyncio.waitClosedBlocksOnConnections IS that constant, so `bounded` stops type-checking when "
-                  "server.wait_closed() is awaited there) and the guard of H11Protocol._maybe_recycle; connection kinds are abstractions of what TCPServer/H11Protocol/H2Protocol "
+                  "server.wait_closed() is awaited there), whether H2Protocol.send_task releases every waiting sender when it ends "
+                  "(Runtime.asyncio.h2CancelDeadlocks IS its negation, so `deadline_forces_progress` stops type-checking without "
+                  "that `finally`) and the guard of H11Protocol._maybe_recycle; connection kinds are abstractions of what TCPServer/H11Protocol/H2Protocol "
                   "do with `context.terminated` (idle task, _maybe_recycle, stream refusal, GOAWAY) — the protocol layer itself is the "
                   "subject of other properties (frame-level delivery, e.g. END_STREAM of the last HTTP/2 response, is judged by the "
                   "monitor only: known finding F30); real-clock runs assert order exactly and instants with >= 1 s slack; 'idle "
@@ -54,8 +57,9 @@ SPEC = {
             "(worker, source, kind multiset, offset); non-trivial = at least one connection is open at the trigger",
     "trusted": ["asyncio / trio cancel-scope deadlines / sockets (measured, real clock)",
                 "h2 and wsproto in client role as oracles for what the peer sees"],
-    "partial": ["deadline_forces_progress excludes runtimes on which a cancelled handler with an HTTP/2 stream in progress never "
-                "finishes (asyncio: known finding F32, witness h2_cancel_deadlock): there worker_serve does not return",
+    "partial": ["what the peer of a *cancelled* handler sees is modelled only as far as GOAWAY (asyncio: the cancelled handler still "
+                "closes its stream and says GOAWAY, Runtime.h2CancelSaysGoaway, measured; trio: nothing): the 500 response head the "
+                "cancelled asyncio application task still writes is not in the model",
                 "frame-level completeness of HTTP/2 responses at shutdown is outside the model (known finding F30: on trio the "
                 "END_STREAM of the last stream can be lost)",
                 "weaker reading: an *idle* HTTP/2 connection is closed at the trigger without GOAWAY; 'told to go away' is required of "
@@ -407,8 +411,9 @@ def run(ctx: Ctx) -> None:
     ctx.extra["grid"] = {"kinds": len(KINDS), "scenarios": len(scs)}
     ctx.exhaustive = False
     evaluate(ctx, scs)
-    ctx.notes.append("witnesses replayed on the implementation: h2_cancel_deadlock = open_h2_long/asyncio (F32, still present); the history "
-                     "witnesses f18_run_before_fix (hang_h1/asyncio) and idle_closed_failed_before_fix (fresh_h2) now pass on the code")
+    ctx.notes.append("history witnesses replayed on the implementation, all pass on the code now: h2_cancel_deadlock_before_fix = "
+                     "open_h2_long/asyncio (F32, fixed by 1b98b61), f18_run_before_fix = hang_h1/asyncio, idle_closed_failed_before_fix = "
+                     "fresh_h2")
 
 
 def replay(ctx: Ctx, case: dict) -> None:
